@@ -511,3 +511,65 @@ def bayer_large(case, ctx):
         for c, o in zip("RGB", out):
             if np.max(np.abs(np.asarray(o) - per[c])) > tol:
                 raise Violation("C16.bayer_large.channels", f"channel {c} differs on a {shape} frame")
+
+
+# --- one efficiency spectrum used again after its arrays were edited in place ----------------------------------------
+
+@hyp("C16", "qe_reuse", lambda tier: st.fixed_dictionaries(
+        {"n": st.integers(5, 12), "seed": st.integers(0, 2**31 - 1), "unit": st.sampled_from(UNITS), "call_unit": st.sampled_from(UNITS),
+         "edits": st.lists(st.tuples(st.sampled_from(["wave_shift_inplace", "wave_scale_caller", "value_inplace", "value_fill", "none"]),
+                                     st.integers(0, 11), st.floats(0.05, 1.0)), min_size=1, max_size=4), "bayer": st.booleans()}),
+     "one efficiency Spectrum object (a response curve that drifts with temperature) used for several frames: between "
+     "the frames its wavelength / value arrays are shifted, scaled or refilled IN PLACE (through the attribute or the "
+     "caller's own array); every frame's charge is the per-pixel sum of photons x the current curve, in the spectrum's own "
+     "unit and in any other", examples=(300, 1200))
+def qe_reuse(case, ctx):
+    n = case["n"]
+    rng = np.random.default_rng(case["seed"])
+    fu = rs.factor("nm", case["unit"])
+    w = (400.0 + 40.0 * np.arange(n) + rng.uniform(0, 10, size=n)) * fu
+    v = rng.uniform(0.1, 1.0, size=n)
+    q_nm = np.array([431.3, 515.5, 610.0, 400.0 + 40.0 * (n - 1) - 7.7])
+    cube = rng.uniform(0, 100, size=(len(q_nm), 4, 6))
+    wave = q_nm * rs.factor("nm", case["call_unit"])
+    ctx.tag("foreign_unit" if case["unit"] != case["call_unit"] else "own_unit", "bayer" if case["bayer"] else "mono",
+            *sorted({"edit:" + e[0] for e in case["edits"]}))
+    ctx.nontrivial_if(case["unit"] != case["call_unit"] and any(e[0].startswith("wave") for e in case["edits"]))
+    with lentil_call("C16.reuse.build", "Spectrum"):
+        qe = Spectrum(w, v, waveunit=case["unit"])
+
+    def frame():
+        if case["bayer"]:
+            return np.asarray(detector.collect_charge_bayer(cube, wave, qe, qe, qe, "RGGB", oversample=1, waveunit=case["call_unit"]), dtype=float)
+        return np.asarray(detector.collect_charge(cube, wave, qe, waveunit=case["call_unit"]), dtype=float)
+
+    def reference():
+        w_nm = np.asarray(qe.wave, dtype=float) * rs.factor(qe.waveunit, "nm")
+        q = np.interp(q_nm, w_nm, np.asarray(qe.value, dtype=float), left=0.0, right=0.0)
+        # (sampled wavelengths are kept at least a nanometre inside the curve by construction below)
+        return np.tensordot(q, cube, axes=1)
+
+    done = []
+    for name, k, x in [("none", 0, 0.0)] + list(case["edits"]):
+        with lentil_call("C16.reuse.edit", f"{name} after [{' '.join(done)}]"):
+            if name == "wave_shift_inplace":
+                np.add(qe.wave, -8.0 * x * fu, out=qe.wave)                 # towards the blue: the band stays covered
+            elif name == "wave_scale_caller":
+                w *= 1.0 - 0.01 * x
+            elif name == "value_inplace":
+                qe.value[k % n] = x
+            elif name == "value_fill":
+                qe.value[...] = rng.uniform(0.1, 1.0, size=n)
+        done.append(name)
+        w_nm = np.asarray(qe.wave, dtype=float) * rs.factor(qe.waveunit, "nm")
+        if q_nm.min() < w_nm[0] + 1.0 or q_nm.max() > w_nm[-1] - 1.0 or np.min(np.abs(q_nm[:, None] - w_nm[None, :])) < 1e-3:
+            raise Skip("sampled_wavelength_at_a_knot_or_band_edge")
+        with lentil_call("C16.reuse.charge", f"collect_charge after [{' '.join(done)}]"):
+            got = frame()
+        exp = reference()
+        slope = float(np.max(np.abs(np.diff(np.asarray(qe.value)) / np.diff(w_nm))))
+        tol = 1e-11 * float(np.max(np.abs(exp))) + slope * 8 * np.finfo(float).eps * 1200.0 * float(np.max(np.sum(np.abs(cube), axis=0)))
+        if got.shape != exp.shape or float(np.max(np.abs(got - exp))) > tol:
+            raise Violation("C16.reuse.value", f"frame after [{' '.join(done)}] (curve in {case['unit']}, cube in {case['call_unit']}): charge "
+                                               f"differs from photons x the current efficiency curve by {float(np.max(np.abs(got - exp))):.3e} "
+                                               f"(peak {float(np.max(np.abs(exp))):.3e})")
